@@ -1,11 +1,11 @@
 #!/bin/sh
-# usage: confirm_seed_cl.sh <id e.g. C14> — confirm a CL03 seeded change produced in the scratch worktree /tmp/seed_<id>
+# usage: confirm_seed_cl.sh <id e.g. C14> [<worktree> <outdir>] — confirm a CL03 seeded change produced in the scratch worktree /tmp/seed_<id>
 # (top commit of that worktree: Cargo.toml tweak that builds the cl03 feature against the system GMP; never part of a seed):
 # the patch applies to a clean checkout, the 98-test baseline and the CL1024 unit tests pass WITH it, the demo fails WITH it and passes WITHOUT it.
 set -u
 ID=$1
-WT=/tmp/seed_$ID
-OUT=/tmp/seed_${ID}_out
+WT=${2:-/tmp/seed_$ID}
+OUT=${3:-/tmp/seed_${ID}_out}
 cd $WT || exit 2
 export C_INCLUDE_PATH=/verif/build/syslibs/inc LIBRARY_PATH=/verif/build/syslibs/lib CARGO_NET_OFFLINE=true CARGO_TARGET_DIR=/tmp/seed_${ID}_target
 git checkout -q -- src 2>/dev/null; git stash list | grep -q . && git stash drop -q
